@@ -65,7 +65,7 @@ the scan itself does not fail; the invocations made are exactly the ones the spe
 which never looks at an `Extract` result); the packages NOT produced by (`e0`, `p0`) are exactly what the other
 invocations returned; and an extractor's status is `failed`/`partial` exactly when one of ITS OWN attempts
 failed. -/
-theorem C02_confined (c : Cfg) (hb : Benign c) (roots : List (Node × Faults)) (ho : GiOK c) (e0 : Nat) (p0 : Path) :
+theorem C02_confined_benign (c : Cfg) (hb : Benign c) (roots : List (Node × Faults)) (ho : GiOK c) (e0 : Nat) (p0 : Path) :
     (run c roots).err = .none ∧
     (run c roots).calls = mustExtract c roots ∧
     (run c roots).pkgs.filter (fun k => !(k.ext = e0 && k.loc = p0))
@@ -161,7 +161,7 @@ for one extractor `e0` on one file `p0` — to an error, a partial inventory, an
 Then the second scan also completes; it makes exactly the same extraction attempts; every package that does not come
 from (`e0`, `p0`) is reported identically, in the same order; and the status of every OTHER extractor, in every root,
 is the same. -/
-theorem C02_confined_two (c : Cfg) (hb : Benign c) (roots : List (Node × Faults)) (hg : GiOK c)
+theorem C02_confined_two_benign (c : Cfg) (hb : Benign c) (roots : List (Node × Faults)) (hg : GiOK c)
     (e0 : Nat) (p0 : Path) (out : ExtractOut) (ho : out.panics = false) :
     let c' := withOutcome c e0 p0 out
     (run c' roots).err = .none ∧ (run c roots).err = .none ∧
